@@ -207,6 +207,83 @@ int g_v[5]; int g_k;
                   desc="Simplex_boundary_enumerator over Bitfield_encoding<uint64_t>: yields exactly the dim + 1 facets (largest vertex removed first), each with index = code without that vertex and coefficient (-1)^position * c mod p"))
 
 
+def coboundary_enumerator_units(U, tier="quick"):
+    """dense Simplex_coboundary_enumerator_ over Bitfield_encoding<uint64_t>: set_simplex / has_next / next_raw yield the
+    cofacets sigma + {j}, j from the largest vertex down, with index = code of the union, coefficient (-1)^(number of
+    vertices of sigma below j) * c, diameter = max(diam sigma, max_i dist(j, v_i)) (at most 6 points, sigma with at most 3
+    vertices, bounded)"""
+    TD = {"vertex_t": "int", "dimension_t": "int8_t", "simplex_t": "uint64_t", "coefficient_t": "uint_least32_t", "value_t": "float"}
+    SUBS = [(r"static_assert\([^;]*\);", "", 0), (r"std::numeric_limits<simplex_t>::digits", "VP_DIGITS", 0)]
+    G = ND + """#include <math.h>
+#define VP_DIGITS 64
+#ifndef NP
+#define NP 6
+#endif
+#ifndef KMAXS
+#define KMAXS 3
+#endif
+int bits_per_vertex; int extra_bits;
+typedef struct { bool has; } vp_opt;
+typedef int diameter_entry_t;
+typedef struct { int a[4]; size_t n; } vp_vec_i;
+uint64_t idx_below, idx_above; int j; int8_t k; vp_vec_i vertices; diameter_entry_t simplex;
+float g_d[NP][NP]; int g_n; uint64_t g_simplex_idx; float g_simplex_diam; uint_least32_t g_coef, modulus;
+uint64_t g_cof_idx; uint_least32_t g_cof_coef; float g_cof_diam; int g_made; int g_v[3]; int g_k;
+#define DIST_size() (g_n)
+#define DIST_at(a, b) (g_d[(a)][(b)])
+#define PARENT_get_index(s) (g_simplex_idx)
+#define PARENT_get_coefficient(s) (g_coef)
+#define PARENT_make_diameter_entry(d, i, c) (g_cof_diam = (d), g_cof_idx = (i), g_cof_coef = (c), g_made++, (vp_opt){true})
+#define GET_DIAMETER_SIMPLEX (g_simplex_diam)
+/* parent.get_simplex_vertices (its own unit): the vertices of the simplex, largest first, written through a reverse iterator */
+#define PARENT_get_simplex_vertices_into_vertices() do { for (int t_ = 0; t_ < 3; t_++) if (t_ < g_k) vertices.a[t_] = g_v[t_]; } while (0)
+"""
+    f_enc = Fn(RP, r"simplex_t operator\(\)\(vertex_t n, dimension_t k\) const", "bf_encode", "", within=r"class Bitfield_encoding \{", sig_subs=[(r"operator\(\)", "bf_encode")], subs=SUBS)
+    W = r"class=typename DistanceMatrix2::Category> class Simplex_coboundary_enumerator_ \{"
+    PS = [(r"const coefficient_t modulus = parent\.modulus;", "", 0), (r"parent\.get_index\(", "PARENT_get_index(", 0), (r"dist\.size\(\)", "DIST_size()", 0),
+          (r"vertices\.resize\(_dim \+ 1\);", "vertices.n = _dim + 1;", 0),
+          (r"parent\.get_simplex_vertices\([^;]*\);", "PARENT_get_simplex_vertices_into_vertices();", 0),
+          (r"for \(vertex_t i : vertices\) cofacet_diameter = std::max\(cofacet_diameter, dist\(j, i\)\);",
+           "for (size_t vi_ = 0; vi_ < vertices.n; vi_++) { vertex_t i = vertices.a[vi_]; cofacet_diameter = VP_MAX(cofacet_diameter, DIST_at(j, i)); }", 0),
+          (r"get_diameter\(simplex\)", "GET_DIAMETER_SIMPLEX", 0), (r"parent\.modulus", "modulus", 0), (r"parent\.get_coefficient\(", "PARENT_get_coefficient(", 0),
+          (r"parent\.make_diameter_entry\(", "PARENT_make_diameter_entry(", 0), (r"simplex_encoding\(", "bf_encode(", 0), (r"std::nullopt", "(vp_opt){false}", 0),
+          (r"std::optional<diameter_entry_t>", "vp_opt", 0), (r"GUDHI_assert\(k != -1\);", "__CPROVER_assert(k != -1, \"GUDHI_assert k != -1\");", 0)]
+    f_set = Fn(RP, r"void set_simplex\(const diameter_entry_t _simplex, const dimension_t _dim\)", "ce_set_simplex", "", within=W, subs=PS)
+    f_has = Fn(RP, r"bool has_next\(bool all_cofacets = true\)", "has_next", "", within=W, sig_subs=[(r" = true", "")], subs=PS)
+    f_next = Fn(RP, r"std::optional<diameter_entry_t> next_raw\(bool all_cofacets = true\)", "ce_next_raw", "", within=W,
+                sig_subs=[(r"std::optional<diameter_entry_t>", "vp_opt"), (r" = true", "")], subs=PS)
+    lem = """
+  g_n = nondet_int(); g_k = nondet_int(); bits_per_vertex = 3; modulus = nondet_uint(); g_coef = nondet_uint(); g_simplex_diam = nondet_float();
+  __CPROVER_assume(g_n >= 2 && g_n <= NP && g_k >= 1 && g_k <= KMAXS && g_k < g_n && (modulus == 2 || modulus == 3 || modulus == 5) && g_coef >= 1 && g_coef < modulus && !isnan(g_simplex_diam));
+  for (int a = 0; a < NP; a++) for (int b = 0; b < NP; b++) { g_d[a][b] = nondet_float(); __CPROVER_assume(!isnan(g_d[a][b])); }
+  uint64_t code = 0;
+  for (int t = 0; t < 3; t++) { g_v[t] = nondet_int(); if (t < g_k) { __CPROVER_assume(g_v[t] >= 0 && g_v[t] < g_n && (t == 0 || g_v[t] < g_v[t - 1])); code += ((uint64_t)g_v[t]) << (bits_per_vertex * (g_k - 1 - t)); } }
+  g_simplex_idx = code; g_made = 0;                 /* g_v[0] > g_v[1] > ...: largest first */
+  ce_set_simplex(0, (int8_t)(g_k - 1));
+  int expected = 0;
+  for (int cand = NP - 1; cand >= 0; cand--) if (cand < g_n) {
+    bool in = false; int below = 0; for (int t = 0; t < 3; t++) if (t < g_k) { in = in || g_v[t] == cand; if (g_v[t] < cand) below++; }
+    if (in) continue;
+    vp_opt r = ce_next_raw(true); expected++;
+    uint64_t want = 0; int pos = 0;                  /* code of the union: vertices sorted increasingly, position from 0 */
+    for (int w = 0; w < NP; w++) { bool use = w == cand; for (int t = 0; t < 3; t++) if (t < g_k && g_v[t] == w) use = true; if (use) { want += ((uint64_t)w) << (bits_per_vertex * pos); pos++; } }
+    float wd = g_simplex_diam; for (int t = 0; t < 3; t++) if (t < g_k && wd < g_d[cand][g_v[t]]) wd = g_d[cand][g_v[t]];
+    __CPROVER_assert(r.has && g_made == expected, "one cofacet per vertex outside the simplex, largest vertex first");
+    __CPROVER_assert(g_cof_idx == want, "cofacet index: the code of the simplex with that vertex added");
+    __CPROVER_assert(g_cof_coef == ((below & 1) ? (modulus - g_coef) % modulus : g_coef), "cofacet coefficient: (-1)^(vertices below the new one) times the coefficient");
+    __CPROVER_assert(g_cof_diam == wd, "cofacet diameter: max of the simplex diameter and the distances to the new vertex");
+  }
+  vp_opt last = ce_next_raw(true);
+  __CPROVER_assert(!last.has && g_made == g_n - g_k, "exactly n - (dim + 1) cofacets");
+"""
+    big = tier == "thorough"
+    U.append(Unit("coboundary_enumerator.dense.u64", "C11", [f_enc, f_set, f_has, f_next], no_enforce=True, typedefs=TD, globals_=G, unwind=8, route="B",
+                  defines=([] if big else ["NP=4", "KMAXS=2"]),
+                  bound=("at most 6 points, simplices with at most 3 vertices" if big else "at most 4 points, simplices with at most 2 vertices") + ", 3 bits per vertex, modulus in {2, 3, 5}", inputs=["g_v", "g_k", "g_n", "modulus", "g_coef"],
+                  harness=H("", "", post=lem), runs=[Run(backend="kissat", timeout=900)],
+                  desc="dense coboundary enumerator over Bitfield_encoding<uint64_t>: exactly the cofacets sigma + {j} (largest j first) with the right index, sign and diameter"))
+
+
 def coeff_units(U):
     """entry_with_coeff_t packing: index << bits | (coefficient - 1)"""
     for sname, ST, DIG in (("u64", "uint64_t", 64), ("u128", "unsigned __int128", 128)):
@@ -584,6 +661,7 @@ def units(tier):
     bitfield_units(U)
     simplex_vertices_units(U)
     boundary_enumerator_units(U)
+    coboundary_enumerator_units(U, tier)
     coeff_units(U)
     fake128_units(U)
     matrix_units(U)
